@@ -299,5 +299,5 @@ Theorem C03_example :
   | Ok out => map (map pid) out = [[1; 3]; []; [5]]%Z
   | Err _ => False
   end.
-Proof. exact (eq_refl _). Qed.
+Proof. exact example_status_list. Qed.
 Print Assumptions C03_example.
